@@ -261,6 +261,15 @@ func genTable(r *Rng, u *Universe, name, stream string, o SchemaOpts) TableDef {
 				t.PartitionBy = append(t.PartitionBy, d.Name)
 			}
 		}
+		if r.Bool(0.2) {
+			// only a dimension that some points lack: those points have no
+			// partition key at all
+			for _, d := range u.Dims {
+				if d.Pred && d.Missing > 0 {
+					t.PartitionBy = []string{d.Name}
+				}
+			}
+		}
 		// the order in which a schema lists the keys is arbitrary
 		r.Shuffle(len(t.PartitionBy), func(i, j int) { t.PartitionBy[i], t.PartitionBy[j] = t.PartitionBy[j], t.PartitionBy[i] })
 	}
@@ -349,6 +358,10 @@ type PointOpts struct {
 }
 
 func genVal(r *Rng) Val {
+	if r.Bool(0.05) {
+		// large values that differ in the seventh significant digit
+		return IntV(int64(PickOne(r, []int{1000000, 1000001, 1000002})))
+	}
 	switch r.Intn(6) {
 	case 0:
 		return IntV(int64(r.Range(-3, 9)))
